@@ -387,7 +387,7 @@ class ManyTags(Stage):
 CHATTER = string.ascii_letters + string.digits + ' .,:;()[]{}<>@#-_=+*/!?\'|~%&$^`éü'
 
 
-CHATTER_TOKENS = ['\x1b[1;31mERROR\x1b[0m:', '\x1b[33mwarn\x1b[m', 'can not open "theme.css', '"', 'say "hi', '[unclosed', 'f(x', "it's", '[12]', '[1.5', '1.5]', '12.345', '->', ' -> ', 'a@1.b()', 'wl_surface@3.commit()', 'x#2.f(1, 2)', '(', ')', '[', ']', '{q}', '<3>',
+CHATTER_TOKENS = ['\x1b[1;31mERROR\x1b[0m:', '\x1b[33mwarn\x1b[m', 'name\tvalue', 'col1\tcol2\tcol3', 'a\t\tb', 'can not open "theme.css', '"', 'say "hi', '[unclosed', 'f(x', "it's", '[12]', '[1.5', '1.5]', '12.345', '->', ' -> ', 'a@1.b()', 'wl_surface@3.commit()', 'x#2.f(1, 2)', '(', ')', '[', ']', '{q}', '<3>',
                   'error:', 'Gtk-WARNING **:', '(process:123):', 'libEGL', 'warning', '12:34:56.789', '[info]', '[ 1 ]', '[a.b]', 'new id x@3',
                   'nil', 'fd 3', '"quoted"', 'wl_display@1.error(', 'discarded', '[.5]', '[5.]', '[1.2.3]', '[1,2', 'f()', 'a.b()', 'a@b.c()']
 
